@@ -77,6 +77,8 @@ def run(prop: str, tier: str, replay: str = None) -> int:
                 rec = json.load(f)
             with open(cases, "w") as out:
                 out.write(json.dumps(rec["case"]) + "\n")
+            rep.level = "other"
+            rep.extra["explanation"] = f"replay of one recorded case ({os.path.basename(replay)}) through the runner and TraceScopes.tla"
         else:
             cfgs = CONFIGS[tier]
 
